@@ -8,6 +8,25 @@ From Coq Require Import ZArith Bool List Lia Arith.
 From GoSecs Require Import Hsms.Generations Hsms.GenerationsProofs.
 Import ListNotations.
 
+(** For EVERY sequence of atomic steps — any interleaving of any number of senders of every kind,
+    the per-generation sender goroutines, the recv loops, peers, timers, caller cancellations,
+    drops, teardowns, joins, reconnect loops, Close and reopen — the observable log is accepted by
+    the monitor [ok_C09]:
+    - [OWire g c]: the frame of call [c] is appended to the socket of generation [g] only if [c]
+      was accepted in (pinned to) [g], only while [g] has not been torn down, and at most once —
+      hence no frame accepted on one generation is ever transmitted on another, and frames still
+      queued on [g] at its teardown never appear on any wire;
+    - [OCompleted c (RReply f | RReject f)]: only with [f] = the generation [c] was accepted in —
+      no reply received on one generation completes a send started on another;
+    - a W-bit/control call whose frame is on the wire returns only Reply-from-its-generation,
+      Reject-from-its-generation, its timer, its caller's ctx, or ConnClosed; a call whose frame is
+      not on the wire returns only NotSelected / ConnClosed / write error (sync) or queued /
+      ConnClosed / ctx / NotSelected (async), and an async call returns before its frame is written;
+    - each call returns at most once; [OTeardown g] at most once per generation. *)
+Theorem C09_all_runs : forall acts, ok_C09 (snd (run init acts)) = true.
+Proof. exact all_runs_ok9. Qed.
+Print Assumptions C09_all_runs.
+
 (** In every reachable state, every frame ever appended to the socket of generation [g] belongs
     to a call that was accepted in (pinned to) generation [g]. *)
 Theorem C09_no_stale_frame : forall acts g c k,
@@ -23,3 +42,30 @@ Theorem C09_generation_discipline : forall acts g,
   genok (cur_is (fst (run init acts)) g) (gens (fst (run init acts)) g) = true.
 Proof. exact GI_reachable. Qed.
 Print Assumptions C09_generation_discipline.
+
+(** Non-vacuity: a run in which a W-bit send is parked between its socket capture and its write
+    across a drop, the teardown, the join, a reconnect and the next generation's Select, while a
+    second call round-trips on generation 1 and an async frame is stranded in generation 0's queue,
+    is a run of the model; it produces 9 observable labels, one frame on wire 1 and none on wire 0. *)
+Example C09_nonvacuous :
+  let acts := [Open; TCPUp; Select;
+               Enter 0 KSyncW; B1 0; Register 0; Capture 0;
+               Enter 2 KAsync; B1 2; Enqueue 2;
+               Drop; LoopSpawn; Teardown; Join 0; LoopBegin; Publish; TCPUp; Select; LoopEnd true;
+               Check 0; Drain 2; Capture 2; Check 2;
+               Enter 1 KSyncW; B1 1; Register 1; Capture 1; Check 1; WriteOk 1; Arm 1;
+               PeerSend 1 (FReply 1); Read 1; Route 1; CompleteReply 1] in
+  snd (run init acts) =
+    [OGenUp 0; OAccepted 0 KSyncW 0; OAccepted 2 KAsync 0; OCompleted 2 KAsync RQueued; OTeardown 0; OGenUp 1;
+     OCompleted 0 KSyncW RClosed; OAsyncErr 2 KAsync RClosed; OAccepted 1 KSyncW 1; OWire 1 1 KSyncW;
+     OPeerSent 1 (FReply 1); ODispatch 1 (FReply 1) true; OCompleted 1 KSyncW (RReply 1)]
+  /\ wire (fst (run init acts)) = [(1, 1, KSyncW)].
+Proof. vm_compute. split; reflexivity. Qed.
+
+(** The monitor is not trivially accepting: a frame on the wrong generation's socket, a reply
+    from another generation, and a frame after its generation's teardown are each rejected. *)
+Example C09_monitor_rejects :
+  ok_C09 [OAccepted 0 KSyncW 0; OWire 1 0 KSyncW] = false /\
+  ok_C09 [OAccepted 0 KSyncW 0; OWire 0 0 KSyncW; OCompleted 0 KSyncW (RReply 1)] = false /\
+  ok_C09 [OAccepted 0 KAsync 0; OCompleted 0 KAsync RQueued; OTeardown 0; OWire 0 0 KAsync] = false.
+Proof. vm_compute. repeat split. Qed.
